@@ -52,6 +52,7 @@ static void vt_note(const void *p, unsigned long len);
 #define W_UF_ENTER int on_ = ct_on; ct_on = 0;
 #define W_UF_LEAVE ct_on = on_;
 #define W_UF_VT(p, len) vt_note((p), (len))
+#define W_UF_GEN_Z
 #include "vcommon.h"
 #include "w_uf.h"
 #define sha_calls uf_sha_calls
@@ -185,6 +186,11 @@ void harness_ecmult_const(void) {
 
 /* ================= API level ================= */
 #ifdef API
+static const unsigned char *ct_nonce[2];
+static int ct_noncefn(unsigned char *nonce32, const unsigned char *msg32, const unsigned char *key32, const unsigned char *algo16, void *data, unsigned int counter) {
+    int on_ = ct_on; ct_on = 0; (void)msg32; (void)key32; (void)algo16; (void)data; __CPROVER_assume(counter == 0);     /* bound: first nonce attempt */
+    memcpy(nonce32, ct_nonce[run], 32); ct_on = on_; return 1;
+}
 void harness_api(void) {
     secp256k1_context ctx; sec_t a = nondet_sec(), b = nondet_sec(); pub_t p = nondet_pub(); int r0, r1; unsigned char o0[64], o1[64]; secp256k1_pubkey pk0, pk1; secp256k1_keypair kp0, kp1; secp256k1_ecdsa_signature sg0, sg1;
     (void)o0; (void)o1; (void)pk0; (void)pk1; (void)kp0; (void)kp1; (void)sg0; (void)sg1; (void)r0; (void)r1;
@@ -223,6 +229,11 @@ void harness_api(void) {
     { secp256k1_ecdsa_s2c_opening op0, op1; TWO_RUNS(r0 = secp256k1_ecdsa_s2c_sign(&ctx, &sg0, &op0, p.m32, a.b32, p.t32), r1 = secp256k1_ecdsa_s2c_sign(&ctx, &sg1, &op1, p.m32, b.b32, p.t32)); }
 #elif API == 12  /* ElligatorSwift key exchange: secret key secret, both encodings public */
     { unsigned char ea[64], eb[64]; int party = p.nullaux & 1; TWO_RUNS(r0 = secp256k1_ellswift_xdh(&ctx, o0, ea, eb, a.b32, party, secp256k1_ellswift_xdh_hash_function_bip324, NULL), r1 = secp256k1_ellswift_xdh(&ctx, o1, ea, eb, b.b32, party, secp256k1_ellswift_xdh_hash_function_bip324, NULL)); }
+#elif API == 13  /* sign-to-contract signing path of ecdsa_sign_inner (opening, nonce tweak) with the nonce supplied by a branch-free caller function:
+                    key and nonce secret; message and host data public */
+    { secp256k1_scalar rr0, ss0, rr1, ss1; secp256k1_sha256 sh0, sh1; secp256k1_ecdsa_s2c_opening op0, op1;
+      secp256k1_s2c_ecdsa_point_sha256_tagged(&sh0); sh1 = sh0; ct_nonce[0] = a.c32; ct_nonce[1] = b.c32;
+      TWO_RUNS(r0 = secp256k1_ecdsa_sign_inner(&ctx, &rr0, &ss0, NULL, &sh0, &op0, p.t32, p.m32, a.b32, ct_noncefn, NULL), r1 = secp256k1_ecdsa_sign_inner(&ctx, &rr1, &ss1, NULL, &sh1, &op1, p.t32, p.m32, b.b32, ct_noncefn, NULL)); }
 #endif
 }
 #endif
